@@ -109,17 +109,16 @@ partial def why (X : Compile.TP) (d : Bool) (n : GoNode) : Option String :=
 def reason (X : Compile.TP) (ti : TreeInfo) (root : GoNode) : String :=
   match root with
   | .capture 0 (-1) body =>
-    if ti.rtl then "rtl"
-    else match why X false body with
+    match why X ti.rtl body with
       | some r => r
       | none =>
         if mapCapnum (mainCfg ti) 0 != 0 then "slot0"
         else if (writerCaps ti).2.isSome && decide (6 ≤ Compile.tier root) then "caps-map" else "unknown"
   | _ => "root"
 
-/-- the smallest `k ∈ {1,…,8}` with `Compile.InFrag k` -/
+/-- the smallest `k ∈ {1,…,9}` with `Compile.InFrag k` -/
 def cover (X : Compile.TP) (ti : TreeInfo) (root : GoNode) : Option Nat :=
-  [1, 2, 3, 4, 5, 6, 7, 8].find? (fun k => Compile.InFrag k X ti root)
+  [1, 2, 3, 4, 5, 6, 7, 8, 9].find? (fun k => Compile.InFrag k X ti root)
 
 /-! ### both sides of the statement on one input -/
 
@@ -144,12 +143,14 @@ structure Side where
   pat : Pat
   strict : Bool
   sl : Nat → Nat
+  /-- the tree option RightToLeft: the direction of the attempt -/
+  rtl : Bool
 
 def mkSide (ti : TreeInfo) (root : GoNode) (names : List (List Nat)) (pat : Pat) (strict : Bool) : Side :=
   { prog := Writer.emit ti root,
     cls := ((Writer.codeFromTree (Writer.mainCfg ti) root).2.sets.map (Compile.readSet names)).toArray,
     pat := pat, strict := strict,
-    sl := fun g => (Writer.mapCapnum (Writer.mainCfg ti) (g : Int)).toNat }
+    sl := fun g => (Writer.mapCapnum (Writer.mainCfg ti) (g : Int)).toNat, rtl := ti.rtl }
 
 /-- one attempt at `i` (`\G` origin `i`): `(ok none)` / `(ok idx len)` when the interpreter model on the
     written program and the specification agree, `(diff what)` when not, `(fuel)` when the fuel ran out -/
@@ -169,7 +170,7 @@ def attemptAt (S : Side) (inp : Input) (fuel : Nat) (i : Nat) : Sexp :=
     | .fault f => mk "diff" [.atom ("fault-" ++ f.name)]
     | .fuel _ => mk "fuel" []
     | .done s =>
-      let r := Spec.attemptRun se S.pat false i      -- = Spec.attempt (Lemmas.Backtrack.attemptRun_eq)
+      let r := Spec.attemptRun se S.pat S.rtl i      -- = Spec.attempt (Lemmas.Backtrack.attemptRun_eq)
       if VM.matched s != r.isSome then mk "diff" [.atom "matched"]
       else match r with
         | none => mk "ok" [.atom "none"]
@@ -206,7 +207,7 @@ def handleCompile (args : List Sexp) : String :=
       let patS := match pat with
         | some p => Cc.ofPat p
         | none => .atom "none"
-      let runs : List Sexp := match cov, Compile.toPatRoot X false root with
+      let runs : List Sexp := match cov, Compile.toPatRoot X ti.rtl root with
         | some _, some p =>
           let S := Cc.mkSide ti root names p strict
           inputs.map fun e =>
